@@ -304,6 +304,24 @@ def run_driver(name, lines, timeout=600):
     return r.stdout.split("\n")[:len(lines)]
 
 
+def run_driver_parallel(name, lines, nproc=None, timeout=3600):
+    """the same, the lines spread over several driver processes (one answer per line, in order)"""
+    from concurrent.futures import ThreadPoolExecutor
+    if not lines:
+        return []
+    n = max(1, min(nproc or NPROC, len(lines)))
+    chunks = [list(range(i, len(lines), n)) for i in range(n)]
+    out = [None] * len(lines)
+
+    def work(idx):
+        return idx, run_driver(name, [lines[i] for i in idx], timeout)
+    with ThreadPoolExecutor(max_workers=n) as ex:
+        for idx, res in ex.map(work, chunks):
+            for i, o in zip(idx, res + ["ERROR no answer"] * (len(idx) - len(res))):
+                out[i] = o
+    return out
+
+
 # ----------------------------------------------------------------------------- findings / reports
 def known_findings():
     return json.load(open(os.path.join(VERIF, "known_findings.json")))
